@@ -12,6 +12,7 @@
    (`boundary_iff_prefix`, `boundary_iff_offsets`); 0 and the total length are boundaries.
    No validity assumption on the code points is needed (a value >= 0x10000 is given 4 bytes). *)
 From V Require Export Common.Str.
+From Coq Require Import PeanoNat.
 Open Scope N_scope.
 
 Definition len {A : Type} (l : list A) : N := N.of_nat (length l).
@@ -128,8 +129,9 @@ Proof.
   { exists c, []. repeat split; [|constructor].
     destruct (N.leb_spec 128 c); [lia | reflexivity]. }
   assert (Hm : forall y, (128 <=? 128 + y mod 64) && (128 + y mod 64 <? 192) = true).
-  { intros y. pose proof (N.mod_lt y 64) as Hy.
-    destruct (N.leb_spec 128 (128 + y mod 64)); destruct (N.ltb_spec (128 + y mod 64) 192); try lia; reflexivity. }
+  { intros y. assert (Hy : y mod 64 < 64) by (apply N.mod_lt; discriminate).
+    generalize dependent (y mod 64). intros m Hy.
+    destruct (N.leb_spec 128 (128 + m)); destruct (N.ltb_spec (128 + m) 192); try lia; reflexivity. }
   assert (Hh : forall k y, 192 <= k -> (128 <=? k + y) && (k + y <? 192) = false).
   { intros k y Hk. destruct (N.leb_spec 128 (k + y)); destruct (N.ltb_spec (k + y) 192); try lia; reflexivity. }
   destruct (c <? 2048).
@@ -166,7 +168,7 @@ Proof.
   intros Hrest.
   destruct (enc_shape c) as (h & tl & E & Hh & Htl). rewrite E.
   destruct n as [|n]; [split; auto|].
-  unfold bnd at 1. cbn [Nat.eqb orb].
+  unfold bnd at 1. change (Nat.eqb (S n) 0) with false. cbn [orb].
   destruct (Nat.lt_ge_cases n (length tl)) as [Hlt|Hge].
   - (* strictly inside the encoded scalar: a continuation byte *)
     cbn [app nth_error]. rewrite nth_error_app1 by assumption.
@@ -174,13 +176,16 @@ Proof.
     + apply nth_error_In in En. rewrite Forall_forall in Htl. rewrite (Htl b En).
       cbn [negb length]. split; [discriminate | intros [H|[H _]]; lia].
     + apply nth_error_None in En. lia.
-  - cbn [app nth_error length]. rewrite nth_error_app2 by assumption.
+  - cbn [app nth_error]. rewrite nth_error_app2 by assumption.
+    assert (EL : length (h :: tl ++ rest) = (S (length tl) + length rest)%nat)
+      by (cbn [length]; rewrite app_length; lia).
+    rewrite EL. cbn [length].
     replace (S n - S (length tl))%nat with (n - length tl)%nat by lia.
-    rewrite app_length.
     split.
     + intros H. right. split; [lia|].
       unfold bnd. destruct (n - length tl)%nat as [|j] eqn:Ej; [reflexivity|].
-      cbn [Nat.eqb orb]. destruct (nth_error rest (S j)) as [b|]; [assumption|].
+      change (Nat.eqb (S j) 0) with false. cbn [orb].
+      destruct (nth_error rest (S j)) as [b|]; [assumption|].
       apply Nat.eqb_eq in H. apply Nat.eqb_eq. lia.
     + intros [H|[_ H]]; [discriminate|].
       unfold bnd in H. destruct (n - length tl)%nat as [|j] eqn:Ej.
@@ -188,7 +193,8 @@ Proof.
         destruct Hrest as [->|(b & r & -> & Hb)]; cbn [nth_error].
         -- apply Nat.eqb_eq. cbn [length]. lia.
         -- rewrite Hb. reflexivity.
-      * cbn [Nat.eqb orb] in H. destruct (nth_error rest (S j)) as [b|]; [assumption|].
+      * change (Nat.eqb (S j) 0) with false in H. cbn [orb] in H.
+        destruct (nth_error rest (S j)) as [b|]; [assumption|].
         apply Nat.eqb_eq in H. apply Nat.eqb_eq. lia.
 Qed.
 
@@ -277,7 +283,7 @@ Lemma boundary_app_r p t i : boundary t i -> boundary (p ++ t) (bytes p + i).
 Proof.
   rewrite !boundary_iff_prefix. intros [k ->].
   exists (length p + k)%nat. rewrite firstn_app.
-  rewrite firstn_all2 by lia. replace (length p + k - length p)%nat with k by lia.
+  rewrite (@firstn_all2 _ (length p + k) p) by lia. replace (length p + k - length p)%nat with k by lia.
   rewrite bytes_app. reflexivity.
 Qed.
 
@@ -290,7 +296,7 @@ Proof.
   - left. exists k. replace (k - length p)%nat with 0%nat by lia.
     rewrite firstn_O, app_nil_r. reflexivity.
   - right. exists (bytes (firstn (k - length p) t)). split.
-    + rewrite bytes_app, firstn_all2 by lia. reflexivity.
+    + rewrite bytes_app, (@firstn_all2 _ k p) by lia. reflexivity.
     + apply boundary_iff_prefix. exists (k - length p)%nat. reflexivity.
 Qed.
 
